@@ -384,15 +384,30 @@ func (t *fnTr) applyDecl(ref, recv string, fd *ast.FuncDecl, p *Package, e *ast.
 		return val{}, err
 	}
 	sub := &fileCtx{w: t.w, mod: t.mod, pkg: p, file: p.FileOf[fd], imps: fileImports(p.FileOf[fd])}
-	if fd.Type.Results == nil || len(fd.Type.Results.List) != 1 || len(fd.Type.Results.List[0].Names) > 1 {
-		return val{}, t.errf(e, "unsupported call: %s does not have exactly one result", fd.Name.Name)
+	if fd.Type.Results == nil || len(fd.Type.Results.List) == 0 {
+		return val{}, t.errf(e, "unsupported call: %s has no result", fd.Name.Name)
 	}
-	rt, ptr, err := sub.resolveType(fd.Type.Results.List[0].Type)
-	if err != nil {
-		return val{}, err
+	// several results (also `(x, y float64)`) form a tuple, destructured by `a, b := f()`
+	var rts []Type
+	for _, f := range fd.Type.Results.List {
+		ft, ptr, err := sub.resolveType(f.Type)
+		if err != nil {
+			return val{}, err
+		}
+		if ptr {
+			return val{}, t.errf(e, "unsupported pointer result of %s", fd.Name.Name)
+		}
+		n := len(f.Names)
+		if n == 0 {
+			n = 1
+		}
+		for i := 0; i < n; i++ {
+			rts = append(rts, ft)
+		}
 	}
-	if ptr {
-		return val{}, t.errf(e, "unsupported pointer result of %s", fd.Name.Name)
+	rt := rts[0]
+	if len(rts) > 1 {
+		rt = Type{K: KTuple, Elems: rts}
 	}
 	parts := []string{ref}
 	if recv != "" {
